@@ -42,12 +42,14 @@ def fill_deal(seat: str, suit: int, mask: int, rnd: _random.Random) -> Dict[str,
     return out
 
 
-def check_deal(deal: Dict[str, frozenset], c: Counter, tag: str, partial: bool = False, h: Hands = None):
+def check_deal(deal: Dict[str, frozenset], c: Counter, tag: str, partial: bool = False, h: Hands = None, regen: bool = True):
     """All encodings of one deal (dict seat -> frozenset of card ints), round trip + canonical form."""
     rp = {'kind': 'deal', 'deal': {s: sorted(deal[s]) for s in SEATS}}
     h = h if h is not None else adapt.hands_obj(deal)
     want = {s: frozenset(deal[s]) for s in SEATS}
     c.inc('deals')
+
+    full = all(len(v) in (0, 13) for v in deal.values())
 
     def back(h2, enc):
         c.inc('evals')
@@ -57,6 +59,21 @@ def check_deal(deal: Dict[str, frozenset], c: Counter, tag: str, partial: bool =
             got = repr(e)
         if got != want:
             c.violate(f'{enc}:{tag}', f'{enc}: deal {rp["deal"]} decodes to {({s: sorted(v) for s, v in got.items()} if isinstance(got, dict) else got)}', rp)
+            return
+        if not regen:
+            return
+        # second generation: the decoded deal is a deal like any other - it must go through every encoder again
+        try:
+            b2 = {p.name: tuple(v) for p, v in h2.to_binary().items()}
+            n2 = {p.name: [int(x) for x in v] for p, v in h2.to_np_binary().items()}
+            j2 = convert_deal(h2)
+            t2 = h2.to_pbn(Player.S) if full else None
+            expb = {s: tuple(1 if i in deal[s] else 0 for i in range(52)) for s in SEATS}
+            if b2 != expb or n2 != {s: list(expb[s]) for s in SEATS} or j2 != {s: [card_name(x) for x in sorted(deal[s])] for s in SEATS} \
+                    or (full and t2 != RP.deal_text(deal, 'S')):
+                c.violate(f're-encode:{enc}:{tag}', f'the deal decoded from {enc} re-encodes differently', rp)
+        except Exception as e:  # noqa
+            c.violate(f're-encode-raise:{enc.split("-")[0]}:{tag}', f'the deal decoded from {enc} cannot be encoded again: {type(e).__name__}: {e}', rp)
     # PBN from every first seat (only for hands of 0 or 13 cards: the format has no partial hands)
     if all(len(v) in (0, 13) for v in deal.values()):
         for first in SEATS:
@@ -115,7 +132,7 @@ def holdings_unit(args):
     for mask in range(1 << 13):
         deal = fill_deal(seat, suit, mask, rnd)
         n = bin(mask).count('1')
-        check_deal(deal, c, f'holding-len{min(n, 2) if n < 12 else n}')
+        check_deal(deal, c, f'holding-len{min(n, 2) if n < 12 else n}', regen=(mask % 8 == 5))
         c.see('cls', (seat, suit, mask))
     return c
 
@@ -173,6 +190,24 @@ def void_patterns_unit(seed):
         d2 = dict(deal)
         d2[seat] = frozenset()
         check_deal(d2, c, 'history-after-emptying-a-hand', h=h2)
+        # the same texts decoded twice, the first result played from in between (decoders must hand out fresh sets every time)
+        h5 = adapt.hands_obj(deal)
+        texts = (h5.to_pbn(Player.E), h5.to_binary(), h5.to_np_binary(), convert_deal(h5))
+        firsts = (Hands.convert_pbn(texts[0]), Hands.convert_binary(texts[1]), Hands.convert_np_binary(texts[2]), hands_parser(texts[3]))
+        for f in firsts:
+            for pl in Player:
+                f[pl].clear()
+        for enc, again in (('pbn', Hands.convert_pbn(texts[0])), ('binary', Hands.convert_binary(texts[1])), ('np', Hands.convert_np_binary(texts[2])), ('json', hands_parser(texts[3]))):
+            c.inc('evals')
+            if adapt.hands_ints(again) != {s: frozenset(deal[s]) for s in SEATS}:
+                c.violate(f'second-decode:{enc}', f'{enc}: the same encoding decoded a second time (after the first result had been played from) gives other hands', {'kind': 'deal', 'deal': {s: sorted(deal[s]) for s in SEATS}})
+        # the same Hands object dealt again in place (13 new cards per seat): encodings must follow
+        h6 = adapt.hands_obj(deal)
+        check_deal(deal, c, 'history-0', h=h6)
+        deal2 = fill_deal(SEATS[(k + 1) % 4], (k + 2) % 4, 0x0f0f & 0x1fff, rnd)
+        for s_, attr in zip(SEATS, ('north', 'east', 'south', 'west')):
+            setattr(h6, attr, {adapt.CARDS[x] for x in deal2[s_]})
+        check_deal(deal2, c, 'history-after-dealing-again-in-place', h=h6)
         # cards removed in place, as the play engine does
         d3 = dict(deal)
         for s in SEATS:
